@@ -12,6 +12,6 @@ func TestC05(t *testing.T) {
 		Prop: "C05", Engine: "chainsim",
 		Generate: chainsim.GenLedger, Decode: chainsim.DecodePlan, Execute: chainsim.ExecLedger("C05"),
 		Shrink: chainsim.ShrinkPlan, Hash: chainsim.HashPlan,
-		StallS: 60, Meta: chainMeta,
+		StallS: 60, ShrinkBudget: 300, Meta: chainMeta,
 	})
 }
